@@ -463,10 +463,10 @@ func c07Variant(base, variant string, class string, tags []string, sameToks bool
 		what = "different-error"
 	}
 	r.Outcome("mismatch")
-	failCapped(r, class+":"+what, tags, showText(variant), fmt.Sprintf("base:    %s\nvariant: %s\nbase outcome:    %s\nvariant outcome: %s", showText(base), showText(variant), firstN(kb, 500), firstN(kv, 500)))
+	failCapped(r, class+":"+what, tags, showText(variant), fmt.Sprintf("base:    %s\nvariant: %s\nbase outcome:    %s\nvariant outcome: %s", showText(base), showText(variant), feFirstN(kb, 500), feFirstN(kv, 500)))
 }
 
-func firstN(s string, n int) string {
+func feFirstN(s string, n int) string {
 	if len(s) > n {
 		return s[:n] + "..."
 	}
@@ -638,7 +638,7 @@ func c07TrailingComma(l c07List, n int, form string, r *Result) {
 		what = "rejected"
 	}
 	r.Outcome("mismatch")
-	failCapped(r, "LAYOUT:trailing-comma:"+what, tags, showText(variant), fmt.Sprintf("base:    %s\nvariant: %s\nbase outcome:    %s\nvariant outcome: %s", showText(base), showText(variant), firstN(kb, 400), firstN(kv, 400)))
+	failCapped(r, "LAYOUT:trailing-comma:"+what, tags, showText(variant), fmt.Sprintf("base:    %s\nvariant: %s\nbase outcome:    %s\nvariant outcome: %s", showText(base), showText(variant), feFirstN(kb, 400), feFirstN(kv, 400)))
 }
 
 // ---------------------------------------------------------------- corpus layout
